@@ -409,6 +409,19 @@ pub fn very_long_game(target: usize) -> Vec<Mv> {
 
 pub const VERY_LONG_TARGET: usize = 4800;
 
+/// Commands that do not concern the game: after any of them the position is the one last set.
+pub const AFTER_POSITION: &[&str] = &[
+    "isready",
+    "uci",
+    "setoption name Hash value 32",
+    "setoption name Clear Hash",
+    "setoption name UCI_AnalyseMode value true",
+    "debug on",
+    "stop",
+    "ponderhit",
+    "xyzzy",
+];
+
 /// One prefix of the very long game as a single position command (replayed by its length).
 fn check_very_long(e: &mut Engine, rep: &Report, game: &[Mv], positions: &[Pos], l: usize) {
     if rep.saturated() {
@@ -612,6 +625,25 @@ pub fn run(tier: &str, seed: u64, out: &str) {
                 commands.fetch_add(2, Ordering::Relaxed);
             }
         });
+        // a command that does not concern the game, sent after the position command, leaves the
+        // position alone (what the next go would search is still the position last set); also
+        // after one more such command and after a search
+        let after: Vec<usize> = (0..pool.len()).collect();
+        par_map_init(&after, Engine::new, |e, &i| {
+            for c in AFTER_POSITION {
+                *e = Engine::new();
+                check(e, &rep, &[&pool[i].0, c], &pool[i].1);
+                for c2 in AFTER_POSITION {
+                    *e = Engine::new();
+                    check(e, &rep, &[&pool[i].0, c, c2], &pool[i].1);
+                }
+                *e = Engine::new();
+                check(e, &rep, &[&pool[i].0, "go depth 1", c], &pool[i].1);
+                commands.fetch_add(2 + AFTER_POSITION.len() as u64, Ordering::Relaxed);
+            }
+        });
+        transitions_total += (pool.len() * AFTER_POSITION.len() * (2 + AFTER_POSITION.len())) as u64;
+        cov_parts.push(J::obj().set("part", "c2: every pool command followed by one or two commands that do not concern the game (and by a search and one such command): the position is unchanged").set("commands_after_position", AFTER_POSITION.to_vec()).set("histories", pool.len() * AFTER_POSITION.len() * (2 + AFTER_POSITION.len())));
         eprintln!("[C04] ordered pairs: {} commands -> {} pairs x {} separators ({:.1}s)", pool.len(), pairs.len(), separators.len(), rep.elapsed());
         states_total += pool.len() as u64;
         transitions_total += (pairs.len() * separators.len()) as u64;
